@@ -1,5 +1,5 @@
 import BreezyVerif.Model.C42
-import BreezyVerif.Lemmas.C42C
+import BreezyVerif.Lemmas.C42D
 /-!
 C42 — theorems.  Every well-formed entry stream (any size, any depth, any
 names that are non-empty and free of `/`), every selection, every root.
@@ -288,16 +288,6 @@ theorem prefix_sibling_witness :
     (exportIter (specialOf none) (some "a".toList) (sampleTree.map render)).map (·.final)
       = ["in a".toList, "sub".toList, "sub/deep".toList] := by decide
 
-/-- `pathjoin(root, p)` is the root directory prefix followed by `p` -/
-theorem pathjoin_eq (root p : Str) (hp : p.head? ≠ some '/') : pathjoin root p = rootDir root ++ p := by
-  unfold pathjoin rootDir
-  simp only [hp, if_false]
-  by_cases h0 : root = []
-  · simp [h0]
-  · by_cases h1 : root.getLast? = some '/'
-    · simp [h0, h1]
-    · simp [h0, h1]
-
 /-- **Root**: the members of an archive exported with root `r` are the
 members of the root-less archive with every name put under `r` -/
 theorem root_prefix (filt : Filter) (root : Str) (its : List Item)
@@ -385,8 +375,8 @@ theorem zipMember_name (ke : Bool) (filt : Filter) (root : Str) (it : Item) (m :
 /-- **zip member names are unique** provided no exported non-symlink is called
 `<a symlink's path>.lnk` (the exporter stores symlinks as `<path>.lnk` text
 members; see `zip_lnk_collision_witness` for what happens otherwise).  The
-other hypotheses hold for every export of a well-formed tree
-(`export_finals_nodup`; final paths are joins of good names). -/
+other hypotheses are discharged for every export of a well-formed tree in
+`zip_export_names_nodup_partial` (via `finals_rel`, `export_finals_nodup`). -/
 theorem zip_names_nodup_partial (ke : Bool) (filt : Filter) (root : Str) (its : List Item)
     (hnd : (its.map (·.final)).Nodup)
     (hrel : ∀ it ∈ its, it.final.head? ≠ some '/')
@@ -423,6 +413,255 @@ theorem zip_names_nodup_partial (ke : Bool) (filt : Filter) (root : Str) (its : 
     | (exfalso; have := congrArg List.getLast? e; rw [lnk, hlast, hlast] at this; cases this)
     | (exfalso; unfold zipMember at hm; rw [hk] at hm; cases hm)
     | (exfalso; unfold zipMember at hm'; rw [hk'] at hm'; cases hm')
+
+/-! ### end to end: entry stream → archive members -/
+
+/-- **Shape of final paths**: for every stream of good names, every selection
+and every special test, no final path starts or ends with `/` (this discharges
+the `hrel` / `hend` hypotheses of `root_prefix`, `root_prefix_under`,
+`dir_eq_tar_rootless` and `zip_names_nodup_partial`) -/
+theorem finals_rel (special : Str → Bool) (sub : Option (List Name)) (t : List CEnt)
+    (ht : ∀ c ∈ t, c.cpath.all goodName = true) :
+    ∀ it ∈ (exportSpec special sub t).map renderItem,
+      it.final.head? ≠ some '/' ∧ it.final.getLast? ≠ some '/' := by
+  intro it hit
+  obtain ⟨i, hi, rfl⟩ := List.mem_map.mp hit
+  have g := (exportSpec_final_good ht hi).1
+  exact ⟨pathStr_head_ne_slash g, pathStr_getLast_ne_slash g⟩
+
+/-- the string-level iteration computes the specification for every `subdir`
+argument that denotes a selection (`None`, `""`, or a path with any number of
+trailing slashes) — `export_exact` and `export_whole_tree` in one statement -/
+theorem export_iter_eq_spec (special : Str → Bool) (t : List CEnt)
+    (ht : ∀ c ∈ t, c.cpath.all goodName = true) {subStr : Option Str} {sub : Option (List Name)}
+    (hd : Denotes subStr sub) :
+    exportIter special subStr (t.map render) = (exportSpec special sub t).map renderItem := by
+  cases hd with
+  | none => exact export_whole_tree special t ht none (Or.inl rfl)
+  | empty => exact export_whole_tree special t ht (some []) (Or.inr rfl)
+  | path s k hs hne => exact export_exact special t s k ht hs hne
+
+example : Denotes (some "a//".toList) (some ["a".toList]) := Denotes.path ["a".toList] 2 (by decide) (by decide)
+
+/-- **tar, end to end**: for every well-formed tree, every denoted selection,
+every root, every filter and every special test, the ordered member list of the
+tar exporter is the specification's items, each named
+`rootDir root ++ "/".join(final)` and carrying the tree entry's kind, (filtered)
+content, executable bit and link target.  No hypothesis beyond `WF`. -/
+theorem tar_export_exact (special : Str → Bool) (filt : Filter) (root : Str) (t : List CEnt)
+    (h : WF t = true) {subStr : Option Str} {sub : Option (List Name)} (hd : Denotes subStr sub) :
+    tarMembers filt root (exportIter special subStr (t.map render))
+      = (exportSpec special sub t).mapM (specTar filt root) := by
+  have ht := (WF_unpack h).1
+  rw [export_iter_eq_spec special t ht hd]
+  unfold tarMembers
+  apply mapM_map_congr
+  intro i hi
+  exact tarMember_renderItem filt root i (exportSpec_final_good ht hi).1
+
+/-- **directory, end to end**: the directory exporter writes the specification's
+items under their final paths (the root option is not used) -/
+theorem dir_export_exact (special : Str → Bool) (filt : Filter) (t : List CEnt)
+    (h : WF t = true) {subStr : Option Str} {sub : Option (List Name)} (hd : Denotes subStr sub) :
+    dirMembers filt (exportIter special subStr (t.map render))
+      = (exportSpec special sub t).mapM (specTar filt []) := by
+  have ht := (WF_unpack h).1
+  rw [export_iter_eq_spec special t ht hd]
+  unfold dirMembers
+  apply mapM_map_congr
+  intro i _
+  exact dirMember_renderItem filt i
+
+/-- **zip, end to end**: the ordered member list of the zip exporter is the
+specification's items as `specZip` names them (directories `…/`, symlinks
+`….lnk` text members) -/
+theorem zip_export_exact (special : Str → Bool) (ke : Bool) (filt : Filter) (root : Str) (t : List CEnt)
+    (h : WF t = true) {subStr : Option Str} {sub : Option (List Name)} (hd : Denotes subStr sub) :
+    zipMembers ke filt root (exportIter special subStr (t.map render))
+      = (exportSpec special sub t).filterMap (specZip ke filt root) := by
+  have ht := (WF_unpack h).1
+  rw [export_iter_eq_spec special t ht hd]
+  unfold zipMembers
+  rw [List.filterMap_map]
+  apply filterMap_congr'
+  intro i hi
+  exact zipMember_renderItem ke filt root i (exportSpec_final_good ht hi).1
+
+example : (tarMembers (fun _ c => c) "r".toList
+    (exportIter (specialOf (some ".bzr".toList)) (some "a/".toList) (sampleTree.map render))).toOption
+    = some [⟨"r/in a".toList, .file, [4], false, []⟩, ⟨"r/sub".toList, .dir, [], false, []⟩,
+           ⟨"r/sub/deep".toList, .file, [5], true, []⟩] := by decide
+
+/-- `root_prefix` and `dir_eq_tar_rootless` for every export of a stream of good
+names, with their hypothesis discharged by `finals_rel`: the archive with root
+`r` is the root-less archive with every name put under `r`, and the directory
+exporter writes what the root-less tar export contains -/
+theorem root_prefix_export (special : Str → Bool) (filt : Filter) (root : Str) (t : List CEnt)
+    (ht : ∀ c ∈ t, c.cpath.all goodName = true) {subStr : Option Str} {sub : Option (List Name)}
+    (hd : Denotes subStr sub) :
+    let its := exportIter special subStr (t.map render)
+    tarMembers filt root its
+        = (tarMembers filt [] its).map (fun ms => ms.map fun m => { m with name := rootDir root ++ m.name })
+      ∧ dirMembers filt its = tarMembers filt [] its := by
+  simp only
+  rw [export_iter_eq_spec special t ht hd]
+  have hf := finals_rel special sub t ht
+  exact ⟨root_prefix filt root _ (fun it hit => (hf it hit).1),
+         dir_eq_tar_rootless filt _ (fun it hit => (hf it hit).1)⟩
+
+/-- **tar / directory member names are unique** for every well-formed tree,
+selection and root (no side condition, unlike zip) -/
+theorem tar_export_names_nodup (special : Str → Bool) (filt : Filter) (root : Str) (t : List CEnt)
+    (h : WF t = true) {subStr : Option Str} {sub : Option (List Name)} (hd : Denotes subStr sub)
+    (ms : List Member) (hok : tarMembers filt root (exportIter special subStr (t.map render)) = .ok ms) :
+    (ms.map (·.name)).Nodup := by
+  rw [tar_export_exact special filt root t h hd] at hok
+  rw [mapM_specTar_names filt root _ ms hok]
+  exact names_nodup root _ (fun i hi => (exportSpec_final_good (WF_unpack h).1 hi).1)
+    (export_finals_nodup special sub t h)
+
+/-- **zip member names are unique** for every export of a well-formed tree,
+provided no exported non-symlink is called `<an exported symlink's path>.lnk`
+(the only remaining hypothesis; `zip_lnk_collision_witness` shows it is needed) -/
+theorem zip_export_names_nodup_partial (special : Str → Bool) (ke : Bool) (filt : Filter) (root : Str)
+    (t : List CEnt) (h : WF t = true) {subStr : Option Str} {sub : Option (List Name)}
+    (hd : Denotes subStr sub)
+    (hlnk : ∀ a ∈ exportSpec special sub t, ∀ b ∈ exportSpec special sub t,
+              a.ent.kind = .symlink → b.ent.kind ≠ .symlink →
+              pathStr b.final ≠ pathStr a.final ++ ".lnk".toList) :
+    ((zipMembers ke filt root (exportIter special subStr (t.map render))).map (·.name)).Nodup := by
+  have ht := (WF_unpack h).1
+  rw [export_iter_eq_spec special t ht hd]
+  have hf := finals_rel special sub t ht
+  apply zip_names_nodup_partial ke filt root _ _ (fun it hit => (hf it hit).1) (fun it hit => (hf it hit).2)
+  · intro a ha b hb hka hkb
+    obtain ⟨i, hi, rfl⟩ := List.mem_map.mp ha
+    obtain ⟨j, hj, rfl⟩ := List.mem_map.mp hb
+    exact hlnk i hi j hj hka hkb
+  · rw [List.map_map]
+    have : (fun x => x.final) ∘ renderItem = fun i : SItem => [] ++ pathStr i.final := by
+      funext i; rfl
+    rw [this]
+    have := names_nodup [] _ (fun i hi => (exportSpec_final_good ht hi).1) (export_finals_nodup special sub t h)
+    simpa [rootDir] using this
+
+example : ∀ a ∈ exportSpec (specialOf none) (some ["a".toList]) sampleTree,
+    ∀ b ∈ exportSpec (specialOf none) (some ["a".toList]) sampleTree,
+      a.ent.kind = .symlink → b.ent.kind ≠ .symlink → pathStr b.final ≠ pathStr a.final ++ ".lnk".toList := by
+  decide
+
+/-! ### selections that denote nothing -/
+
+/-- **Only paths select**: if a non-empty `subdir` argument makes the iteration
+yield anything, then — after `rstrip("/")` — it is the `/`-join of a non-empty
+component prefix of some entry's path.  Consequently `/a`, `a//b`, `./a`,
+`a/.`, `no/such` export nothing (next two theorems). -/
+theorem export_nonempty_selection_is_path (special : Str → Bool) (t : List CEnt) (s : Str)
+    (ht : ∀ c ∈ t, c.cpath.all goodName = true) (hs : s ≠ [])
+    (h : exportIter special (some s) (t.map render) ≠ []) :
+    ∃ c ∈ t, ∃ p, p ≠ [] ∧ p <+: c.cpath ∧ pathStr p = rstripSlash s := by
+  unfold exportIter normSubdir at h
+  simp only [hs, if_false] at h
+  rw [List.filterMap_map] at h
+  obtain ⟨it, hit⟩ := List.exists_mem_of_ne_nil _ h
+  obtain ⟨c, hc, hci⟩ := List.mem_filterMap.mp hit
+  exact ⟨c, hc, step_some_is_path (ht c hc) hci⟩
+
+/-- a selection with an empty component (`/a`, `a//b`, `//`, …) exports nothing -/
+theorem export_selection_empty_component (special : Str → Bool) (t : List CEnt) (s : Str)
+    (ht : ∀ c ∈ t, c.cpath.all goodName = true) (hs : s ≠ [])
+    (he : [] ∈ splitSlash (rstripSlash s)) :
+    exportIter special (some s) (t.map render) = [] := by
+  apply Classical.byContradiction
+  intro hne
+  obtain ⟨c, hc, p, hp0, hpc, hps⟩ := export_nonempty_selection_is_path special t s ht hs hne
+  have hg := prefix_all_good (ht c hc) hpc
+  rw [← hps, splitSlash_pathStr hg hp0] at he
+  have := (List.all_eq_true.mp hg) [] he
+  simp [goodName] at this
+
+example : ([] : Str) ∈ splitSlash (rstripSlash "/a".toList) ∧ ([] : Str) ∈ splitSlash (rstripSlash "a//b/".toList) := by
+  decide
+
+/-- a selection of good names that is not a component prefix of any entry's
+path (`no/such`, `./a`, `a/.`) exports nothing -/
+theorem export_selection_not_in_tree (special : Str → Bool) (t : List CEnt) (s : List Name) (k : Nat)
+    (ht : ∀ c ∈ t, c.cpath.all goodName = true) (hs : s.all goodName = true) (hne : s ≠ [])
+    (hno : ∀ c ∈ t, ¬ s <+: c.cpath) :
+    exportIter special (some (pathStr s ++ List.replicate k '/')) (t.map render) = [] := by
+  apply Classical.byContradiction
+  intro h
+  have h0 : pathStr s ++ List.replicate k '/' ≠ [] := by
+    intro e
+    exact pathStr_ne_nil hs hne (List.append_eq_nil_iff.mp e).1
+  obtain ⟨c, hc, p, _, hpc, hps⟩ := export_nonempty_selection_is_path special t _ ht h0 h
+  rw [rstrip_pathStr hs hne k] at hps
+  have := pathStr_inj (prefix_all_good (ht c hc) hpc) hs hps
+  exact hno c hc (this ▸ hpc)
+
+example : ∀ c ∈ sampleTree, ¬ ([".".toList, "a".toList] : List Name) <+: c.cpath := by decide
+
+/-! ### `get_root_name` -/
+
+/-- **Root name**: for every registered extension `ext`, every directory part
+and every slash-free stem `b` (even one that itself ends in an extension),
+`get_root_name(d/b.ext) = b`: exactly one extension is stripped (no registered
+extension is a suffix of another, so the first match is the only match) -/
+theorem rootName_strips_ext (ext : Str) (he : ext ∈ extensions) (b : Str) (hb : '/' ∉ b) (d : Str) :
+    rootName (d ++ '/' :: (b ++ ext)) = b ∧ rootName (b ++ ext) = b := by
+  obtain ⟨hes, hel⟩ := ext_noslash ext he
+  have hbe : '/' ∉ b ++ ext := by
+    intro m
+    rcases List.mem_append.mp m with m | m
+    · exact hb m
+    · exact hes m
+  have hfind : extensions.find? (endsWith (b ++ ext)) = some ext := by
+    apply find?_unique _ ext extensions he (endsWith_iff.mpr (List.suffix_append _ _))
+    intro y hy hyb
+    have h1 : y <:+ b ++ ext := endsWith_iff.mp hyb
+    have h2 : ext <:+ b ++ ext := List.suffix_append _ _
+    rcases List.suffix_or_suffix_of_suffix h1 h2 with h3 | h3
+    · exact (ext_suffix_free ext he y hy (endsWith_iff.mpr h3)).symm
+    · exact ext_suffix_free y hy ext he (endsWith_iff.mpr h3)
+  have htake : (b ++ ext).take ((b ++ ext).length - ext.length) = b := by
+    apply List.take_left'
+    simp
+  constructor
+  · unfold rootName
+    have : d ++ '/' :: (b ++ ext) ≠ ['-'] := by
+      intro e
+      have : '/' ∈ ['-'] := by rw [← e]; simp
+      simp at this
+    simp only [this, if_false, basename_append d hbe, hfind, htake]
+  · unfold rootName
+    have : b ++ ext ≠ ['-'] := by
+      intro e
+      have := congrArg List.length e
+      simp at this
+      omega
+    simp only [this, if_false, basename_noslash hbe, hfind, htake]
+
+example : ".tar.gz".toList ∈ extensions ∧ '/' ∉ "x.tar".toList := by decide
+
+/-- a destination whose basename ends in no registered extension is its own root name -/
+theorem rootName_no_ext (dest : Str) (hd : dest ≠ ['-'])
+    (hno : ∀ ext ∈ extensions, endsWith (basename dest) ext = false) :
+    rootName dest = basename dest := by
+  unfold rootName
+  have : extensions.find? (endsWith (basename dest)) = none := by
+    rw [List.find?_eq_none]
+    intro x hx
+    rw [hno x hx]
+    simp
+  simp only [hd, if_false, this]
+
+example : ∀ ext ∈ extensions, endsWith (basename "d/a.tar.gz.old".toList) ext = false := by decide
+
+/-- **Witness** (`.tar.gz` is tried as a whole, not `.gz` after `.tar`):
+`a.tar.gz` has root `a`, `a.tgz.tgz` has root `a.tgz`, `.tar` has the empty root -/
+theorem rootName_witness :
+    rootName "d/a.tar.gz".toList = "a".toList ∧ rootName "a.tgz.tgz".toList = "a.tgz".toList ∧
+    rootName ".tar".toList = [] ∧ rootName "-".toList = [] := by decide
 
 /-- **Witness**: a well-formed tree holding a symlink `x` and a file `x.lnk`
 is exported to a zip file with two members called `x.lnk` -/
